@@ -92,6 +92,10 @@ VERSRE: Final[Pattern[str]] = re.compile(r"HTTP/(\d)\.(\d)", re.ASCII)
 _TARGET_FORBIDDEN_CTL_RE: Final[Pattern[str]] = re.compile(r"[\x00-\x1f\x7f]")
 DIGITS: Final[Pattern[str]] = re.compile(r"\d+", re.ASCII)
 HEXDIGITS: Final[Pattern[bytes]] = re.compile(rb"[0-9a-fA-F]+")
+# https://www.rfc-editor.org/rfc/rfc9112#section-7.1.1
+_CHUNK_EXT_FORBIDDEN_CTL_RE: Final[Pattern[bytes]] = re.compile(
+    rb"[\x00-\x08\x0a-\x1f\x7f]"
+)
 
 # RFC 9110 singleton headers — duplicates are rejected in strict mode.
 # In lax mode (response parser default), the check is skipped entirely
@@ -1093,10 +1097,13 @@ class HttpPayloadParser:
                         i = chunk.find(CHUNK_EXT, 0, pos)
                         if i >= 0:
                             size_b = chunk[:i]  # strip chunk-extensions
-                            # Verify no LF in the chunk-extension
-                            if b"\n" in (ext := chunk[i:pos]):
+                            # Verify no LF or other control character (the
+                            # grammar admits none) in the chunk-extension
+                            if _CHUNK_EXT_FORBIDDEN_CTL_RE.search(
+                                ext := chunk[i:line_len]
+                            ):
                                 exc = TransferEncodingError(
-                                    f"Unexpected LF in chunk-extension: {ext!r}"
+                                    f"Invalid character in chunk-extension: {ext!r}"
                                 )
                                 self._set_payload_exception(exc)
                                 raise exc
